@@ -197,6 +197,25 @@ def _module_mutables(ctx) -> dict:
     return out
 
 
+def _has_nested_mutables(ctx, key) -> bool:
+    """does the module-level literal hold mutable values (dict of dicts ...)?  Unknown shapes count as yes."""
+    mn, name = key
+    for st in ctx.index.modules[mn].tree.body:
+        v = None
+        if isinstance(st, ast.Assign) and len(st.targets) == 1 and isinstance(st.targets[0], ast.Name) and st.targets[0].id == name:
+            v = st.value
+        elif isinstance(st, ast.AnnAssign) and isinstance(st.target, ast.Name) and st.target.id == name:
+            v = st.value
+        if v is None:
+            continue
+        if isinstance(v, ast.Dict):
+            return any(not isinstance(x, (ast.Constant, ast.Tuple, ast.Name, ast.Attribute)) for x in v.values)
+        if isinstance(v, (ast.List, ast.Set)):
+            return any(not isinstance(x, (ast.Constant, ast.Tuple, ast.Name, ast.Attribute)) for x in v.elts)
+        return True
+    return True
+
+
 def _is_copy(v: ast.AST) -> bool:
     if isinstance(v, ast.Call):
         f = unparse(v.func)
@@ -224,6 +243,7 @@ def rule_r2(ctx) -> RuleResult:
                         v[a.asname or a.name] = (st.module, a.name)
         visible[mn] = v
     alias_attr = {}  # attr name -> (shared object description, site)
+    shallow_attr = {}  # attr name -> (shared object whose *inner* objects are still shared, site)
     for dotted, m, f in ctx.index.all_functions():
         mn = dotted.split(".")[0]
         vis = dict(visible[mn])
@@ -253,6 +273,18 @@ def rule_r2(ctx) -> RuleResult:
                             alias_attr[t.attr] = (shared, dotted, n)
                         elif isinstance(t, ast.Name):
                             local_alias[t.id] = shared
+                # one-level copies: dict(X), list(X), X.copy(), copy.copy(X) share X's inner objects
+                inner = None
+                if isinstance(v, ast.Call) and unparse(v.func) in ("dict", "list", "set", "copy.copy") and len(v.args) == 1 \
+                        and isinstance(v.args[0], ast.Name) and v.args[0].id in vis:
+                    inner = v.args[0].id
+                elif isinstance(v, ast.Call) and isinstance(v.func, ast.Attribute) and v.func.attr == "copy" and not v.args \
+                        and isinstance(v.func.value, ast.Name) and v.func.value.id in vis:
+                    inner = v.func.value.id
+                if inner is not None and _has_nested_mutables(ctx, vis[inner]):
+                    for t in tgs:
+                        if isinstance(t, ast.Attribute) and isinstance(t.value, ast.Name) and t.value.id in ("self", "ctx", "wtp"):
+                            shallow_attr[t.attr] = ("module-level {}.{}".format(*vis[inner]), dotted, n)
         # direct mutation of a module-level mutable / alias inside a function body
         for n in walk_no_nested(f):
             tgt = None
@@ -296,6 +328,30 @@ def rule_r2(ctx) -> RuleResult:
                 rr.bad(Finding("C09.R2", m.relpath, dotted, unparse(n)[:80],
                                "`{}` is bound to {} without a copy (in {}: `{}`) and mutated here ({}): contexts created later, with "
                                "other options, see the change".format(unparse(tgt), shared, where, unparse(asg)[:60], how), n.lineno))
+    # mutation of an *inner* object reached through a one-level copy
+    for dotted, m, f in ctx.index.all_functions():
+        for n in walk_no_nested(f):
+            tgt = how = None
+            if isinstance(n, ast.Call) and isinstance(n.func, ast.Attribute) and n.func.attr in MUTATORS:
+                tgt, how = n.func.value, "." + n.func.attr + "()"
+            elif isinstance(n, (ast.Assign, ast.AugAssign)):
+                for t in (n.targets if isinstance(n, ast.Assign) else [n.target]):
+                    if isinstance(t, ast.Subscript):
+                        tgt, how = t.value, "[...] ="
+            if tgt is None:
+                continue
+            base = None
+            if isinstance(tgt, ast.Subscript):
+                base = tgt.value
+            elif isinstance(tgt, ast.Call) and isinstance(tgt.func, ast.Attribute) and tgt.func.attr in ("setdefault", "get", "pop", "__getitem__"):
+                base = tgt.func.value
+            if isinstance(base, ast.Attribute) and base.attr in shallow_attr and isinstance(base.value, ast.Name) \
+                    and base.value.id in ("self", "ctx", "wtp"):
+                shared, where, asg = shallow_attr[base.attr]
+                rr.bad(Finding("C09.R2", m.relpath, dotted, unparse(n)[:80],
+                               "`{}` is a one-level copy of {} (in {}: `{}`); this statement mutates one of the *inner* objects the copy still "
+                               "shares with it ({}): every context created later sees the change".format(
+                                   unparse(base), shared, where, unparse(asg)[:60], how), n.lineno))
     for (mn, name), kind in sorted(mm.items()):
         rr.ok(mn, "{}.{} ({}) never mutated through an instance".format(mn, name, kind))
     rr.obligations -= len([f for f in rr.findings])  # a finding replaces the ok of its object
@@ -303,6 +359,7 @@ def rule_r2(ctx) -> RuleResult:
     for a, (shared, where, asg) in alias_attr.items():
         rr.informational.append({"alias": "<ctx>." + a, "of": shared, "bound_in": where})
     rr.samples.append({"aliasing_attributes": {a: s for a, (s, _, _) in alias_attr.items()}})
+    rr.samples.append({"one_level_copies": {a: s for a, (s, _, _) in shallow_attr.items()}})
     return rr
 
 
@@ -503,6 +560,48 @@ def rule_r7(ctx) -> RuleResult:
     return rr
 
 
+def rule_r8(ctx) -> RuleResult:
+    """Objects captured by identity when the Lua runtime is initialised (the arguments bound
+    into the callbacks handed to Lua) live as long as the runtime: the per-page reset has to
+    empty them in place.  Rebinding the attribute leaves Lua with the old object, so the
+    environments of earlier invocations stay visible to later pages."""
+    rr = RuleResult("C09.R8", "attributes whose object is captured by the Lua runtime are never rebound after construction", min_instances=2)
+    captured = {}
+    for dotted, m, f in ctx.index.all_functions():
+        if not dotted.startswith("luaexec."):
+            continue
+        for c in walk_no_nested(f):
+            if isinstance(c, ast.Call) and unparse(c.func) in ("_bind", "functools.partial", "partial"):
+                for a in c.args[1:]:
+                    if isinstance(a, ast.Attribute) and isinstance(a.value, ast.Name) and a.value.id in ("self", "ctx", "wtp"):
+                        captured.setdefault(a.attr, (dotted, c))
+    if not captured:
+        raise AnalysisError("no context object bound into a Lua callback found (2 confirmed by hand: lua_env_stack, lua_frame_stack)")
+    for attr, (where, c) in sorted(captured.items()):
+        rebinds = []
+        for dotted, m, f in ctx.index.all_functions():
+            if dotted == "core.Wtp.__init__":
+                continue
+            for n in walk_no_nested(f):
+                tgs = n.targets if isinstance(n, ast.Assign) else [n.target] if isinstance(n, (ast.AnnAssign, ast.AugAssign)) else []
+                if isinstance(n, ast.AnnAssign) and n.value is None:
+                    continue
+                for t in tgs:
+                    for tt in (t.elts if isinstance(t, (ast.Tuple, ast.List)) else [t]):
+                        if isinstance(tt, ast.Attribute) and tt.attr == attr and isinstance(tt.value, ast.Name) \
+                                and tt.value.id in ("self", "ctx", "wtp"):
+                            rebinds.append((m, dotted, n))
+        if rebinds:
+            for m, dotted, n in rebinds:
+                rr.bad(Finding("C09.R8", m.relpath, dotted, unparse(n)[:80],
+                               "`{}` is rebound here, but the object it held was bound into a Lua callback in {} (`{}`): Lua keeps using the "
+                               "old object, so Lua environments/frames of earlier invocations and pages are never discarded".format(
+                                   attr, where, unparse(c)[:60]), n.lineno))
+        else:
+            rr.ok(where, "<ctx>.{} captured by {}; only mutated in place".format(attr, unparse(c)[:50]), {"attr": attr, "captured_in": where})
+    return rr
+
+
 def run(ctx) -> list:
     cg = CallGraph(ctx.index)
-    return [rule_r1(ctx, cg), rule_r2(ctx), rule_r3(ctx), rule_r4(ctx), rule_r5(ctx), rule_r6(ctx), rule_r7(ctx)]
+    return [rule_r1(ctx, cg), rule_r2(ctx), rule_r3(ctx), rule_r4(ctx), rule_r5(ctx), rule_r6(ctx), rule_r7(ctx), rule_r8(ctx)]
